@@ -6,7 +6,7 @@
    where each group g = [who |-> <<builds>>, ok |-> BOOLEAN, parts |-> <<<<int>>>>, raw |-> STRING]
    gives the line printed for this operation by the listed builds (wasm0, wasm31, ts0, ts31 =
    WebAssembly / TypeScript back end, unoptimised / fully optimised), parsed into the canonical
-   parts of Collections.tla (ok = FALSE and raw = the line when it has not the syntax expected
+   parts of Collections.tla (raw = the line itself; ok = FALSE when it has not the syntax expected
    for that operation, e.g. "<panic:Bad tree>" when the program ended there).
    Every operation is replayed on the abstract registers with the logged arguments
    (Collections!Step) and the printed result must equal the abstract observation obs', for every
@@ -20,7 +20,7 @@
 EXTENDS Collections, Json, IOUtils
 
 Rec == ndJsonDeserialize(IOEnv.TRACE)
-Hdr == JsonDeserialize(IOEnv.TRACE_HDR)   \* [builds |-> <<...>>, excuse |-> <<[ops |-> <<...>>, raw |-> "..."]>>]
+Hdr == JsonDeserialize(IOEnv.TRACE_HDR)   \* [builds |-> <<...>>, excuse |-> <<[ops |-> <<...>>, line |-> "...", who |-> <<...>>]>>]
 N == Len(Rec)
 VARIABLES l, dead, verdict, nbad
 tvars == <<vars, l, dead, verdict, nbad>>
@@ -30,14 +30,17 @@ GroupOK(g, expected) == g.ok /\ g.parts = expected
 \* every build reported, and every reported line is the abstract observation
 AllBuilds(e) == \A b \in 1..Len(Hdr.builds) : \E i \in 1..Len(e.obs) : InSeq(Hdr.builds[b], e.obs[i].who)
 Matches(e, expected) == AllBuilds(e) /\ \A i \in 1..Len(e.obs) : GroupOK(e.obs[i], expected)
-\* an open known finding covers this mismatch: the operation is one of its operations and every
-\* deviating line has the recorded form ("" = any line)
+\* an open known finding covers this mismatch: the operation is one of its operations, and every
+\* deviating group of builds has the recorded form: the line it printed (line = "" stands for any
+\* line) and the builds it may concern (who = <<>> stands for any build)
 Excused(e, expected) ==
   /\ AllBuilds(e)
   /\ \E x \in 1..Len(Hdr.excuse) :
        /\ InSeq(e.o.op, Hdr.excuse[x].ops)
        /\ \A i \in 1..Len(e.obs) :
-            GroupOK(e.obs[i], expected) \/ Hdr.excuse[x].raw = "" \/ e.obs[i].raw = Hdr.excuse[x].raw
+            \/ GroupOK(e.obs[i], expected)
+            \/ /\ Hdr.excuse[x].line = "" \/ e.obs[i].raw = Hdr.excuse[x].line
+               /\ Hdr.excuse[x].who = <<>> \/ \A b \in 1..Len(e.obs[i].who) : InSeq(e.obs[i].who[b], Hdr.excuse[x].who)
 
 TraceInit == Init /\ l = 1 /\ dead = FALSE /\ verdict = "ok" /\ nbad = 0
 Reset == /\ m' = [r \in R |-> EmptyMap] /\ s' = [r \in R |-> {}] /\ q' = [r \in R |-> <<>>] /\ obs' = <<>>
